@@ -114,6 +114,69 @@ def dup_keys(rnd, v):
     return v, False
 
 
+def overlap_family():
+    """fixed family (independent of VERIF_SEED) of maps whose members have OVERLAPPING key domains, with groups of documents that
+    differ only in the order of their entries; the inputs listed under finding C10-overlapping-key-domains refer to this family"""
+    import itertools
+    rnd = random.Random(20260922)
+    keys = [G.ktype(G.ref("tstr")), G.ktype(G.ref("int")), G.ktype(G.lit(C.mk_text("a"))), G.ktype(G.ref("any"))]
+    vals = [G.ref("int"), G.ref("tstr"), G.ref("any")]
+    occs = [(1, 1), (0, 1), (0, -1)]
+    members = [G.ent(G.T(v), lo, hi, key=k) for k in keys for v in vals for lo, hi in occs]
+    two = [[a, b] for a in members for b in members]
+    rnd.shuffle(two)
+    schemas = [[G.trule("root", G.T(G.mp(m)))] for m in two[:300]]
+    for _ in range(500):
+        schemas.append([G.trule("root", G.T(G.mp([rnd.choice(members) for _ in range(3)])))])
+    pool = [(C.mk_text("a"), C.mk_int(1)), (C.mk_text("a"), C.mk_text("x")), (C.mk_text("b"), C.mk_int(1)), (C.mk_text("b"), C.mk_text("x")),
+            (C.mk_int(7), C.mk_int(0)), (C.mk_int(7), C.mk_text("x"))]
+    groups = []
+    for n in (2, 3):
+        for combo in itertools.combinations(pool, n):
+            if len({json.dumps(k, sort_keys=True) for k, _ in combo}) == n:
+                groups.append([C.mk_map(list(p)) for p in itertools.permutations(combo)])
+    out = []
+    for S in schemas:
+        for g in rnd.sample(groups, 12):
+            out.append((S, g))
+    return out
+
+
+def run_overlap(out, findings, events, metas):
+    fam = overlap_family()
+    listed = set()
+    for f in findings:
+        if f["id"] == "C10-overlapping-key-domains":
+            listed = set(f.get("inputs", []))
+    cases = [{"fmt": "cbor", "rules": S, "val": v} for S, g in fam for v in g]
+    ops, res = semcheck.run_cases(cases)
+    k = 0
+    n_groups = n_listed = 0
+    for S, g in fam:
+        rs = res[k:k + len(g)]
+        os_ = ops[k:k + len(g)]
+        k += len(g)
+        vs = [observed_verdict(r["obs"]) for r in rs]
+        if any(v is None for v in vs):
+            out.violation("outcome:overlap", {"property": PID, "kind": "no-verdict", "cddl": os_[0]["cddl"], "docs": [o["hex"] for o in os_]})
+            continue
+        n_groups += 1
+        text = os_[0]["cddl"].strip()
+        if text in listed:
+            n_listed += 1
+            if len(set(vs)) > 1:
+                out.known_hit("C10-overlapping-key-domains")
+            continue
+        for j in range(1, len(g)):
+            # a pair with equal verdicts cannot be a violation: only a sample of those is sent to TLC (evidence), every unequal pair is
+            if vs[0] == vs[j] and (k + j) % 7 != 0:
+                continue
+            events.append({"ev": "PermDoc", "fmt": "cbor", "rules": S, "val": g[0], "val2": g[j], "ok": vs[0] == "T", "ok2": vs[j] == "T"})
+            metas.append({"relation": "PermDoc", "fmt": "cbor", "cddl": os_[0]["cddl"], "doc": os_[0]["hex"], "cddl2": os_[0]["cddl"], "doc2": os_[j]["hex"],
+                          "rules": S, "val": g[0], "rules2": S, "val2": g[j], "accept": vs[0] == "T", "family": "overlapping key domains"})
+    return n_groups, n_listed
+
+
 def run():
     t0 = time.time()
     t = vlib.tier()
@@ -167,6 +230,8 @@ def run():
         metas.append(meta)
         if len(samples) < 6 and va == "T" and rnd.random() < 0.01:
             samples.append({k: meta[k] for k in ("relation", "fmt", "cddl", "doc", "cddl2", "doc2")})
+    # ---- members with overlapping key domains (fixed family; CBOR encoding order)
+    ov_groups, ov_listed = run_overlap(out, findings, events, metas)
     # ---- duplicate physical keys (CBOR): oracle-judged
     dup_cases = []
     for fmt, r, v in base:
@@ -202,7 +267,8 @@ def run():
                                "CBOR encoding order, and on (schema, schema with key-disjoint literal-key members of map groups permuted); sources: MC_Sem scope B from TLC and "
                                "random schemas/instances/mutants. Trace_Rel re-derives PermEq / MPermSchema and requires equal verdicts. Separately, CBOR documents with a duplicated "
                                "physical pair are judged by the oracle. Non-trivial/distinct = distinct related pairs (not identical) with equal verdicts.",
-                               samples, {"duplicate_key_documents": len(evd), "duplicate_key_agree": dup_ok, "exhaustive": False},
+                               samples, {"duplicate_key_documents": len(evd), "duplicate_key_agree": dup_ok, "exhaustive": False,
+                                         "overlapping_key_domain_groups": ov_groups, "overlapping_key_domain_groups_of_listed_schemas": ov_listed},
                                ["the relation is independent of the oracle; the oracle is used for duplicate-key documents and to attribute mismatches to listed deviations"])
 
 
